@@ -11,6 +11,10 @@ package polyjson
 // generators in this file must come out of Build identically whether or not
 // the parsed value went through JSON in between.
 //
+// A part of the records carries the text Name (as JSON key, as string value,
+// inside strings) together with integers beyond 2^53, which are not all
+// float64 values: every integer must come back exactly.
+//
 // Besides single round trips on a path there are HISTORIES on one path: three
 // different documents are written to the same path one after the other and the
 // path is read after every write; each Read must give the document written
@@ -26,6 +30,7 @@ import (
 	"os"
 	"path/filepath"
 	"reflect"
+	"regexp"
 	"strconv"
 	"strings"
 	"sync"
@@ -239,6 +244,90 @@ func c15Record(rng *rand.Rand, sh c15Shape) *poly.Sequence {
 	return s
 }
 
+// c15BigInt draws an integer beyond 2^53 in magnitude; most of them (the odd
+// ones, and more the further out) are not float64 values.
+func c15BigInt(rng *rand.Rand) int {
+	switch rng.Intn(8) {
+	case 0:
+		return 9007199254740993 // 2^53 + 1
+	case 1:
+		return 1<<53 + 3
+	case 2:
+		return 1<<62 + 12345
+	case 3:
+		return -(1 << 53) - 1
+	case 4:
+		return int(^uint(0) >> 1) // the largest int
+	case 5:
+		return -int(^uint(0)>>1) - 1 // the smallest int
+	case 6:
+		return -(1<<53 + 1 + 2*int(rng.Int63n(1<<52)))
+	default:
+		return 1<<53 + 1 + 2*int(rng.Int63n(1<<52))
+	}
+}
+
+// c15NameRecord gives a small record that (a) carries the text Name - as a
+// JSON key (attribute key, as the GFF reader produces for "Name=thrL"; key of
+// Meta.Other), as a whole string value, or inside a string with or without
+// quotes around it - and (b) has integers beyond 2^53 in Meta.RegionStart /
+// RegionEnd / Size and in the Start / End of a Join node (which no evaluation
+// of the location reads: only its operands are spans of the sequence).
+func c15NameRecord(rng *rand.Rand, i int) (*poly.Sequence, string) {
+	sh := c15Shape{refs: rng.Intn(3), refsNil: rng.Intn(2) == 0, other: rng.Intn(4), features: 1 + rng.Intn(3), attrs: rng.Intn(4), depth: 1 + rng.Intn(2), seqLen: 1 + rng.Intn(40)}
+	s := c15Record(rng, sh)
+	var where []string
+	for _, k := range [][]int{{0}, {1}, {2}, {3}, {4}, {5}, {0, 2}, {1, 3, 5}}[i%8] {
+		switch k {
+		case 0:
+			f := &s.Features[rng.Intn(len(s.Features))]
+			if f.Attributes == nil {
+				f.Attributes = map[string]string{}
+			}
+			f.Attributes["ID"], f.Attributes["Name"] = "gene1", "thrL"
+			where = append(where, "attribute key Name (Name=thrL as the GFF reader stores it)")
+		case 1:
+			if s.Meta.Other == nil {
+				s.Meta.Other = map[string]string{}
+			}
+			s.Meta.Other["Name"] = c15Text(rng)
+			where = append(where, "Meta.Other key Name")
+		case 2:
+			s.Features[0].Type = "Name"
+			where = append(where, "Feature.Type is the text Name")
+		case 3:
+			s.Description = "ID=gene1;Name=thrL;" + c15Text(rng)
+			where = append(where, "Description contains Name=thrL")
+		case 4:
+			s.Meta.Definition = "the key \"Name\" of the old layout"
+			where = append(where, "Meta.Definition contains Name in double quotes")
+		default:
+			s.Features[len(s.Features)-1].Name = "Name"
+			where = append(where, "Feature.Name is the text Name")
+		}
+	}
+	var ints []string
+	for len(ints) == 0 {
+		if rng.Intn(2) == 0 {
+			s.Meta.RegionStart = c15BigInt(rng)
+			ints = append(ints, "Meta.RegionStart="+strconv.Itoa(s.Meta.RegionStart))
+		}
+		if rng.Intn(2) == 0 {
+			s.Meta.RegionEnd = c15BigInt(rng)
+			ints = append(ints, "Meta.RegionEnd="+strconv.Itoa(s.Meta.RegionEnd))
+		}
+		if rng.Intn(2) == 0 {
+			s.Meta.Size = c15BigInt(rng)
+			ints = append(ints, "Meta.Size="+strconv.Itoa(s.Meta.Size))
+		}
+		if l := &s.Features[0].SequenceLocation; len(l.SubLocations) > 0 && rng.Intn(2) == 0 {
+			l.Start, l.End = c15BigInt(rng), c15BigInt(rng)
+			ints = append(ints, "Join node Start="+strconv.Itoa(l.Start)+" End="+strconv.Itoa(l.End))
+		}
+	}
+	return s, fmt.Sprintf("Name-text record #%d: %d features, sequence length %d; %s; %s", i, len(s.Features), len(s.Sequence), strings.Join(where, ", "), strings.Join(ints, ", "))
+}
+
 // c15Diff gives the path of the first difference between two values, "" when
 // equal. nil and empty slices/maps are equal; ParentSequence is not compared.
 func c15Diff(path string, a, b reflect.Value) string {
@@ -296,7 +385,16 @@ func c15Diff(path string, a, b reflect.Value) string {
 	return ""
 }
 
+// c15BigIntDiff recognises the difference text of an Int field whose written
+// value lies beyond 2^53 in magnitude (not every such integer is a float64).
+var c15BigIntDiff = regexp.MustCompile(`^[A-Za-z.\[\]{}]+: (-?[0-9]+) written, -?[0-9]+ read$`)
+
 func c15ClassOf(diff string) string {
+	if m := c15BigIntDiff.FindStringSubmatch(diff); m != nil {
+		if n, err := strconv.ParseInt(m[1], 10, 64); err == nil && (n > 1<<53 || n < -(1<<53)) {
+			return "integer-beyond-2-53"
+		}
+	}
 	p := diff
 	if i := strings.Index(p, ":"); i >= 0 {
 		p = p[:i]
@@ -760,6 +858,19 @@ func c15GFF(rng *rand.Rand) string {
 	return b.String()
 }
 
+// c15FarRegion moves the ##sequence-region pragma of a generated GFF3 file to
+// coordinates beyond 2^53 (the region keeps its length; feature lines and the
+// sequence stay what they were).
+func c15FarRegion(rng *rand.Rand, text string) string {
+	lines := strings.SplitN(text, "\n", 3)
+	f := strings.Fields(lines[1])
+	a, _ := strconv.Atoi(f[2])
+	e, _ := strconv.Atoi(f[3])
+	start := 1<<53 + 1 + 2*int(rng.Int63n(1<<52))
+	lines[1] = fmt.Sprintf("##sequence-region %s %d %d", f[1], start, start+e-a)
+	return strings.Join(lines, "\n")
+}
+
 func c15FirstDiffLine(a, b []byte) string {
 	la, lb := strings.Split(string(a), "\n"), strings.Split(string(b), "\n")
 	for i := 0; i < len(la) || i < len(lb); i++ {
@@ -808,7 +919,9 @@ func c15LineClass(detail string) string {
 }
 
 // c15Convert checks format -> JSON -> format against format -> format.
-func c15Convert(v *verifRun, dir string, w int, text string, parse func([]byte) poly.Sequence, build func(poly.Sequence) []byte, nontrivial func(poly.Sequence) bool) (parserPanicked bool) {
+// class, when not empty, names the shape of the generated text and becomes the
+// class of a difference.
+func c15Convert(v *verifRun, dir string, w int, text, class string, parse func([]byte) poly.Sequence, build func(poly.Sequence) []byte, nontrivial func(poly.Sequence) bool) (parserPanicked bool) {
 	var parsed poly.Sequence
 	if p := c15Try(func() { parsed = parse([]byte(text)) }); p != "" {
 		return true // not a parser output; the reader's own trouble belongs to C01/C02/C14
@@ -832,7 +945,10 @@ func c15Convert(v *verifRun, dir string, w int, text string, parse func([]byte) 
 	}
 	if !bytes.Equal(direct, via) {
 		d := c15FirstDiffLine(direct, via)
-		v.Fail(c15LineClass(d), c15Clip(text), c15Clip(d))
+		if class == "" {
+			class = c15LineClass(d)
+		}
+		v.Fail(class, c15Clip(text), c15Clip(d))
 	}
 	return false
 }
@@ -842,8 +958,9 @@ func c15Convert(v *verifRun, dir string, w int, text string, parse func([]byte) 
 func TestVerifC15(t *testing.T) {
 	nRandom, nGb, nGff := 15000, 10000, 10000
 	longLens, longPer := []int{70000, 200000}, 4
-	nHistory := 400
+	nHistory, nName := 400, 800
 	if verifThorough() {
+		nName = 40000
 		nRandom, nGb, nGff = 600000, 400000, 400000
 		nHistory = 20000
 		longLens, longPer = []int{65000, 65536, 66000, 70000, 100000, 200000, 1000000}, 12
@@ -860,6 +977,8 @@ func TestVerifC15(t *testing.T) {
 	axes := "systematic part: every combination of references {0 nil, 0 empty, 1, 5} x Other {nil, empty, 1 key, several} x Features {nil, empty, 1, 3} x attributes {nil, empty, 1, several} x location depth {0..4} (1280 shapes, content random); " +
 		"random part: " + strconv.Itoa(nRandom) + " seeded records, 0..5 references, 0..6 features, sequence length 0..300; " +
 		"long part: " + strconv.Itoa(longPer) + " records for each sequence length in " + fmt.Sprint(longLens) + " (0..2 references, 1..3 features or none, location depth 0..2; Write puts the sequence on ONE line of the file, beyond 64 KiB from about 65.5 kb on; a failure on a file with such a line is classed sequence-beyond-64k); " +
+		"Name-text part: " + strconv.Itoa(nName) + " seeded records (0..2 references, 1..3 features, first location a Join of depth 1..2, sequence length 1..40) that carry the text Name - as an attribute key with value thrL (what the GFF reader stores for Name=thrL), as a key of Meta.Other, as the whole value of Feature.Type or Feature.Name, inside Description as Name=thrL, or inside Meta.Definition between double quotes; the eight combinations {each alone, attribute key + Type, Other key + Description + Feature.Name} in turn - " +
+		"and at least one integer beyond 2^53 in magnitude (2^53+1 = 9007199254740993, 2^53+3, 2^62+12345, -(2^53+1), the largest and smallest int, random odd values up to 2^54 of either sign) in Meta.RegionStart, RegionEnd, Size or the Start/End of a Join node (which no evaluation of a location reads); every integer must come back exactly; a difference in an integer field whose written value is beyond 2^53 is classed integer-beyond-2-53 in every part; " +
 		"history part: " + strconv.Itoa(nHistory) + " seeded histories on ONE path (fresh at the start of each history): three different documents (0..3 references, 0..4 features or none, sequence length 1..300) are written to it one after the other and the path is read after every write, every Read must give the document written last; " +
 		"five variants in turn: (a) unrelated records brought to exactly the same byte size (ASCII letters appended to Description) with the modification time set to the same whole second by os.Chtimes after every write, (b) same byte size, time left to the file system, (c) byte size different from one write to the next, time pinned, " +
 		"(d) a record, then the same record with every base of its sequence replaced, then the first record again, same size, time pinned, (e) size and time as they come; size and time are confirmed with os.Stat before each Read; a failure at the 2nd or 3rd step is classed path-reused-same-size-and-mtime (a, d), path-reused-same-size (b), path-reused-same-mtime (c), path-reused (e); " +
@@ -872,7 +991,7 @@ func TestVerifC15(t *testing.T) {
 		strconv.Itoa(nGb)+" seeded GenBank records laid out by a generator in the test (length 1..400, every header keyword, continuation lines, 0..3 references, at most one COMMENT block, 0..6 features with exactly one qualifier each so that Build's map walks cannot reorder anything, one- and two-line locations of the kinds span / complement / join of spans / join of two complements / complement(join), partial markers, some non-ASCII words): "+
 			"genbank.Build(polyjson.Parse(file written by polyjson.Write(genbank.Parse(x)))) equals genbank.Build(genbank.Parse(x)) byte for byte; non-trivial = parser output has a feature")
 	vf := newVerifRun("C15", "io/polyjson/post/convert-gff",
-		strconv.Itoa(nGff)+" seeded GFF3 files laid out by a generator in the test (length 2..501, region start 1 or offset, 0..8 features with 1..4 attributes, blank lines, optional ###, FASTA lines of 50..80 letters and never a 1-letter line): "+
+		strconv.Itoa(nGff)+" seeded GFF3 files laid out by a generator in the test (length 2..501, region start 1 or offset, 0..8 features with 1..4 attributes, blank lines, optional ###, FASTA lines of 50..80 letters and never a 1-letter line; attribute keys from ID, Name, Parent, Note, Dbxref, product; every 25th file has its ##sequence-region moved to start at a random odd coordinate in 2^53+1..2^54 keeping its length, a difference there is classed integer-beyond-2-53): "+
 			"gff.Build(polyjson.Parse(file written by polyjson.Write(gff.Parse(x)))) equals gff.Build(gff.Parse(x)) byte for byte; non-trivial = parser output has a feature")
 	for _, v := range []*verifRun{vr, vl, vg, vf} {
 		v.Sampled()
@@ -926,6 +1045,11 @@ func TestVerifC15(t *testing.T) {
 			for i := w; i < nHistory; i += workers {
 				c15CheckHistory(t, vr, vl, dir, w, rngHist, seed, i)
 			}
+			rngName := rand.New(rand.NewSource(seed*7919 + 3000 + int64(w))) // own stream as well
+			for i := w; i < nName; i += workers {
+				rec, what := c15NameRecord(rngName, i)
+				c15RoundTrip(vr, vl, rec, filepath.Join(dir, "c15-"+strconv.Itoa(w)+".json"), fmt.Sprintf("%s (VERIF_SEED %d)", what, seed), "", nil)
+			}
 			for i := w; i < nRandom; i += workers {
 				sh := c15Shape{refs: rng.Intn(6), refsNil: rng.Intn(2) == 0, other: rng.Intn(4), features: rng.Intn(8) - 1, attrs: rng.Intn(4), depth: rng.Intn(5), seqLen: rng.Intn(301)}
 				if i%50 == 0 {
@@ -935,12 +1059,16 @@ func TestVerifC15(t *testing.T) {
 			}
 			sg, sf := 0, 0
 			for i := w; i < nGb; i += workers {
-				if c15Convert(vg, dir, w, c15GenBank(rng), genbank.Parse, genbank.Build, func(s poly.Sequence) bool { return len(s.Features) > 0 }) {
+				if c15Convert(vg, dir, w, c15GenBank(rng), "", genbank.Parse, genbank.Build, func(s poly.Sequence) bool { return len(s.Features) > 0 }) {
 					sg++
 				}
 			}
 			for i := w; i < nGff; i += workers {
-				if c15Convert(vf, dir, w, c15GFF(rng), gff.Parse, gff.Build, func(s poly.Sequence) bool { return len(s.Features) > 0 }) {
+				text, class := c15GFF(rng), ""
+				if i%25 == 7 {
+					text, class = c15FarRegion(rngName, text), "integer-beyond-2-53"
+				}
+				if c15Convert(vf, dir, w, text, class, gff.Parse, gff.Build, func(s poly.Sequence) bool { return len(s.Features) > 0 }) {
 					sf++
 				}
 			}
